@@ -134,6 +134,71 @@ def run(facts, rep, tier):
     group(F, rep)
     scopeexists(F, rep)
     foldorder(F, rep)
+    builtin_identity(F, rep)
+
+
+# variant -> (a name its arm must be able to emit (any of), names it must never emit): each builtin / method is the
+# Rust operation of the same meaning, and never its opposite. "emit" = literal quote! identifiers and format_ident!
+# sources of the arm, helpers of the same file included (read under the constant flags they are called with).
+BUILTIN_NAMES = {
+    "Min": (("min",), ("max",)), "Max": (("max",), ("min",)),
+    "Abs": (("abs",), ()), "Len": (("len",), ()), "Sum": (("sum",), ()), "Zip": (("zip",), ()),
+    "Enumerate": (("enumerate",), ()), "Sorted": (("sort", "sort_by", "sorted"), ()),
+    "Print": (("println",), ("eprintln",)),
+    "ReadFile": (("read_to_string",), ("write",)), "WriteFile": (("write",), ("read_to_string",)),
+}
+METHOD_NAMES = {
+    "Lower": (("to_lowercase", "str_lower"), ("to_uppercase", "str_upper")),
+    "Upper": (("to_uppercase", "str_upper"), ("to_lowercase", "str_lower")),
+    "StartsWith": (("starts_with", "str_starts_with"), ("ends_with", "str_ends_with")),
+    "EndsWith": (("ends_with", "str_ends_with"), ("starts_with", "str_starts_with")),
+    "Append": (("push",), ("pop",)), "Pop": (("pop",), ("push",)),
+    "Insert": (("insert",), ("remove",)), "Remove": (("remove",), ("insert",)),
+    "Reserve": (("reserve",), ("reserve_exact",)), "ReserveExact": (("reserve_exact",), ("reserve",)),
+    "Swap": (("swap",), ()), "Join": (("str_join", "join"), ()), "Split": (("str_split", "split"), ()),
+    "Replace": (("str_replace", "replace"), ()), "Strip": (("str_strip", "trim"), ()),
+}
+BUILTIN_DISPATCH = (
+    ("IrEmitter<'a>>::emit_builtin_call", IR + "expr::BuiltinFn", BUILTIN_NAMES, 11),
+    ("IrEmitter<'a>>::try_emit_builtin_call", "incan_core::lang::builtins::BuiltinFnId", BUILTIN_NAMES, 11),
+    ("collection_methods::emit_collection_method", IR + "expr::MethodKind", METHOD_NAMES, 7),
+    ("string_methods::emit_string_method", IR + "expr::MethodKind", METHOD_NAMES, 8),
+)
+
+
+def builtin_identity(F, rep):
+    """BUILTINID — the arm that emits builtin / method V can produce the Rust name of V and cannot produce the name
+    of its opposite (`max` for `min`, `to_uppercase` for `lower`, ...). Decides the name only, not the arguments."""
+    from engines import region_names
+    for suffix, adt, table, floor in BUILTIN_DISPATCH:
+        f = F.one_fn(suffix)
+        if not rep.anchor("BUILTINID", suffix.split("::")[-1], f):
+            continue
+        rep.functions.add(f.path)
+        sw = primary_dispatch(f, adt)
+        if not rep.anchor("BUILTINID", "match on %s in %s" % (short(adt), suffix.split("::")[-1]), sw):
+            continue
+        regs = arm_regions(f, sw)
+        n = 0
+        for v, (need, never) in sorted(table.items()):
+            if v not in regs:
+                continue
+            n += 1
+            names = region_names(F, f, regs[v])
+            has = [x for x in need if x in names]
+            bad = [x for x in never if x in names]
+            ok = bool(has) and not bad
+            inst = "%s:%s" % (suffix.split("::")[-1], v)
+            rep.oblige("BUILTINID", inst, ok, sample={"rule": "BUILTINID", "arm": inst, "emits": has,
+                                                      "opposite": bad})
+            if not ok:
+                why = ("can emit `%s`, the opposite operation" % bad[0]) if bad else \
+                    ("cannot emit any of %s" % "/".join(need))
+                rep.add(Finding("BUILTINID", "BUILTINID|%s|%s" % (suffix.split("::")[-1], v),
+                                "the %s arm of %s %s: the generated program computes a different builtin than the "
+                                "source names" % (v, suffix.split("::")[-1], why),
+                                file=f.file, line=sw["ln"], fn=f.path))
+        rep.floor("BUILTINID", "arms of %s with a name oracle" % suffix.split("::")[-1], n, floor)
 
 
 FOLD_ORDER = (
